@@ -619,6 +619,79 @@ func (c14) Run(ctx *Ctx, ci interface{}) (o Outcome) {
 			o.Add("pssm_columns_checked", int64(L))
 		}
 	}
+	if !hasLower && c.Ref >= 0 && c.Ref < n {
+		// substitutions / insertions / deletions against the reference row, from the
+		// documented meaning: insertions = runs of residues facing gaps of the reference,
+		// N/X and IUPAC-compatible residues are never substitutions
+		mask := func(b byte) int {
+			switch b {
+			case 'A':
+				return 1
+			case 'C':
+				return 2
+			case 'G':
+				return 4
+			case 'T':
+				return 8
+			case 'R':
+				return 1 | 4
+			case 'Y':
+				return 2 | 8
+			case 'K':
+				return 4 | 8
+			case 'M':
+				return 1 | 2
+			case 'N':
+				return 15
+			}
+			return 0
+		}
+		nt := al.Alphabet() == align.NUCLEOTIDS
+		ref := a.Seqs[c.Ref]
+		var wantN, wantL []string
+		for i := 0; i < n; i++ {
+			q := a.Seqs[i]
+			cnt, refi := 0, 0
+			var lst, ins string
+			for k := 0; k < L; k++ {
+				eq := q[k] == ref[k]
+				if nt && !eq {
+					eq = mask(q[k])&mask(ref[k]) > 0
+				}
+				if q[k] != '-' && q[k] != allc && !eq {
+					cnt++
+				}
+				if ref[k] == '-' {
+					if q[k] != '-' {
+						ins += string(q[k])
+					}
+					continue
+				}
+				if ins != "" {
+					lst += fmt.Sprintf("-%d%s,", refi, ins)
+					ins = ""
+				}
+				if q[k] != allc && !eq {
+					lst += fmt.Sprintf("%c%d%c,", ref[k], refi, q[k])
+				}
+				refi++
+			}
+			if ins != "" {
+				lst += fmt.Sprintf("-%d%s,", refi, ins)
+			}
+			wantN = append(wantN, fmt.Sprintf("%d <nil>", cnt))
+			wantL = append(wantL, lst+"<nil>")
+		}
+		if got := s0.disc["NumMutationsComparedToReferenceSequence"]; got != strings.Join(wantN, "|") {
+			o.Fail("definition:NumMutationsComparedToReferenceSequence", "against reference row %d: %s reported, %s by definition\n%s", c.Ref, got, strings.Join(wantN, "|"), desc())
+			return
+		}
+		if got := s0.disc["ListMutationsComparedToReferenceSequence"]; got != strings.Join(wantL, "|") {
+			o.Fail("definition:ListMutationsComparedToReferenceSequence", "against reference row %d: %s reported, %s by definition\n%s", c.Ref, got, strings.Join(wantL, "|"), desc())
+			return
+		}
+		o.Add("mutation_lists_checked", int64(n))
+	}
 	if o.Nontrivial {
 		o.Sample = map[string]interface{}{"alignment": a.Seqs, "alphabet": al.Alphabet(), "map_seeds": c.MapSeeds, "consensus": s0.consensus[0]}
 	}
